@@ -11,7 +11,7 @@ git -C /repo worktree add -q --detach $wt HEAD || exit 2
 cd $wt
 rundemo() {
   if [ -d $src/demo ]; then mkdir -p _mutant/x && cp -r $src/demo _mutant/x/ && go run ./_mutant/x/demo >/tmp/confirm-$id.demo.log 2>&1; rc=$?; rm -rf _mutant; return $rc
-  else pkg=$(grep -o 'directory  *[a-z/-]*/' $src/demo_test.go | head -1 | awk '{print $2}'); [ -z "$pkg" ] && pkg=xmss/; cp $src/demo_test.go $pkg/zz_demo_test.go; go test -vet=off -count=1 -run 'TestC[0-9]+[mM]' ./$pkg >/tmp/confirm-$id.demo.log 2>&1; rc=$?; rm -f $pkg/zz_demo_test.go; return $rc; fi
+  else pkg=$(grep -o 'directory  *[a-z/-]*/' $src/demo_test.go | head -1 | awk '{print $2}'); [ -z "$pkg" ] && pkg=xmss/; cp $src/demo_test.go $pkg/zz_demo_test.go; go test -vet=off -count=1 -run 'Test(C[0-9]+[mM]|M[0-9])' ./$pkg >/tmp/confirm-$id.demo.log 2>&1; rc=$?; rm -f $pkg/zz_demo_test.go; return $rc; fi
 }
 res=ok
 rundemo; clean_rc=$?
